@@ -469,6 +469,12 @@ class Gen:
         if m < 0.6:
             return self.real(lo, hi, extreme=False)
         re_, im_ = self.dy(lo, hi), self.dy(0, 0.5, 8)
+        # the other sign convention for absorption, and a signed zero: both legal values of a complex index
+        sg = r.random()
+        if sg < 0.25:
+            im_ = -im_
+        elif sg < 0.35:
+            im_ = -0.0
         if m < 0.8:
             return complex(re_, im_)
         if m < 0.93 or not self.risky:
